@@ -490,7 +490,13 @@ func (b *Blockchain) EventFilter(
 
 // RevertHead reverts the head block
 func (b *Blockchain) RevertHead() error {
-	return b.stateBackend.RevertHead()
+	err := b.stateBackend.RevertHead()
+	// A persisted aggregated bloom filter is rewritten when its window completes
+	// again after a reorg; cached copies predate the replacement blocks and would
+	// hide their events. Reset unconditionally: a failed revert may already have
+	// moved the running filter.
+	b.cachedFilters.Reset()
+	return err
 }
 
 func (b *Blockchain) GetReverseStateDiff() (core.StateDiff, error) {
